@@ -289,6 +289,16 @@ def _tmp_single_once(case, steps, route, res):
                     del clone
                     gc.collect()
                     res.count("pool_copies_made_and_dropped")
+                elif a % 3 == 1 and listed and not case.get("relative_dir"):
+                    # the caller publishes content on a pool path atomically: it writes a file outside the pool directory and
+                    # moves it over the path (another inode under the same name); the path stays the pool's file
+                    tgt = listed[a % len(listed)]
+                    if tgt not in state.get("ext_deleted", set()) and os.path.exists(tgt):
+                        side = os.path.join(scratch(), f"published-{len(ever)}-{j}")
+                        with open(side, "w") as f_:
+                            f_.write("published content")
+                        os.replace(side, tgt)
+                        res.count("pool_paths_replaced_atomically_by_the_caller")
             observe(pool, f"step {j} ({op})")
             if route == "break" and j == len(steps) - 1:
                 break
